@@ -52,8 +52,9 @@ def varsP : Node → List String
   | .doWhile c b => varsP c ++ varsP b
   | .while_ c b => varsP c ++ varsP b
   | .for_ init cond next body =>
-    guardOf (loopCompatOf (initP init).1 (initP init).2 (normVars (varsPO cond))
-      (normVars (varsPO next)) (normVars (varsP body))) ++ varsP body
+    guardOf (if hasEffectO cond then (false, none)
+      else loopCompatOf (initP init).1 (initP init).2 (normVars (varsPO cond))
+        (normVars (varsPO next)) (normVars (varsP body))) ++ varsP body
   | .funcDef d b =>
     (match d with
       | .decl _ (.funcDecl a) _ => varsPO a
@@ -108,7 +109,7 @@ theorem varsN_eq : (n : Node) → varsN n = .ok (varsP n)
   | .doWhile l r => by simp only [varsN, varsP, varsN_eq l, varsN_eq r]; rfl
   | .for_ init cond next body => by
     simp only [varsN, varsP, initVars_eq, varsO_eq cond, varsO_eq next, varsN_eq body, ok_bind]
-    rfl
+    split <;> rfl
   | .ret e => by simp only [varsN, varsP, varsO_eq e]
   | .brk => by simp only [varsN, varsP]; rfl
   | .cont => by simp only [varsN, varsP]; rfl
@@ -141,13 +142,18 @@ end
 
 /-- the value of `loopCompat` on a `for` statement -/
 def lcP (init cond next : Option Node) (body : Node) : Bool × Option String :=
-  loopCompatOf (initP init).1 (initP init).2 (normVars (varsPO cond)) (normVars (varsPO next))
+  if hasEffectO cond then (false, none)
+  else loopCompatOf (initP init).1 (initP init).2 (normVars (varsPO cond)) (normVars (varsPO next))
     (normVars (varsP body))
+
+theorem varsP_for (init cond next : Option Node) (body : Node) :
+    varsP (.for_ init cond next body) = guardOf (lcP init cond next body) ++ varsP body := by
+  simp only [varsP, lcP]
 
 theorem loopCompat_for (init cond next : Option Node) (body : Node) :
     loopCompat (.for_ init cond next body) = .ok (lcP init cond next body) := by
-  simp only [loopCompat, initVars_eq, varsO_eq, varsN_eq, ok_bind]
-  rfl
+  simp only [loopCompat, lcP, initVars_eq, varsO_eq, varsN_eq, ok_bind]
+  split <;> rfl
 
 /-- the candidate guard variables of `loop_compat` (independent of the body) -/
 def loopXOf (iters srcs conds nxt : List String) : List String :=
@@ -170,14 +176,79 @@ theorem loopCompatOf_cases (iters srcs conds nxt body : List String) :
   · exact .inr rfl
 
 theorem lcP_cases (init cond next : Option Node) (body : Node) :
-    (∃ x, lcP init cond next body = (true, some x)) ∨ lcP init cond next body = (false, none) :=
-  loopCompatOf_cases ..
+    (∃ x, lcP init cond next body = (true, some x)) ∨ lcP init cond next body = (false, none) := by
+  unfold lcP
+  split
+  · exact .inr rfl
+  · exact loopCompatOf_cases ..
+
+/-- a `for` whose condition changes a variable is never a counted loop -/
+theorem lcP_of_hasEffect (init cond next : Option Node) (body : Node)
+    (h : hasEffectO cond = true) : lcP init cond next body = (false, none) := by
+  simp only [lcP, h, if_true]
 
 theorem countedFor_for (init cond next : Option Node) (body : Node) :
     Spec.countedFor (.for_ init cond next body) = (lcP init cond next body).1 := by
   unfold Spec.countedFor
   rw [loopCompat_for]
   rcases lcP_cases init cond next body with ⟨x, h⟩ | h <;> rw [h]
+
+/-! ### the effect scan of the code is the effect scan of the specification -/
+
+theorem incDec_test (op : String) :
+    (op == "++" || op == "--" || op == "p++" || op == "p--") = Gen.incDec.contains op := by
+  simp only [Gen.incDec, List.contains_cons, List.contains_nil, Bool.or_false, Bool.or_assoc]
+
+mutual
+theorem hasEffect_eq_changesVariable : (n : Node) → hasEffect n = Spec.changesVariable n
+  | .id _ | .const .. | .typeDecl | .brk | .cont | .empty | .goto _ | .compound none
+  | .assign .. => by
+    simp only [hasEffect, Spec.changesVariable]
+  | .unop op e => by
+    simp only [hasEffect, Spec.changesVariable, hasEffect_eq_changesVariable e, ← incDec_test,
+      Bool.or_assoc]
+  | .cast e | .label _ e => by
+    simp only [hasEffect, Spec.changesVariable, hasEffect_eq_changesVariable e]
+  | .binop _ a b | .arrayRef a b | .while_ a b | .doWhile a b | .switch a b | .funcDef a b => by
+    simp only [hasEffect, Spec.changesVariable, hasEffect_eq_changesVariable a,
+      hasEffect_eq_changesVariable b]
+  | .ternary a b c => by
+    simp only [hasEffect, Spec.changesVariable, hasEffect_eq_changesVariable a,
+      hasEffect_eq_changesVariable b, hasEffect_eq_changesVariable c]
+  | .funcCall a o | .decl _ a o => by
+    simp only [hasEffect, Spec.changesVariable, hasEffect_eq_changesVariable a,
+      hasEffectO_eq_changesVariableO o]
+  | .exprList l | .declList l | .compound (some l) | .default_ l | .paramList l | .other _ _ l => by
+    simp only [hasEffect, Spec.changesVariable, hasEffectL_eq_changesVariableL l]
+  | .case_ a l => by
+    simp only [hasEffect, Spec.changesVariable, hasEffect_eq_changesVariable a,
+      hasEffectL_eq_changesVariableL l]
+  | .ifs a t f => by
+    simp only [hasEffect, Spec.changesVariable, hasEffect_eq_changesVariable a,
+      hasEffectO_eq_changesVariableO t, hasEffectO_eq_changesVariableO f]
+  | .for_ i c x b => by
+    simp only [hasEffect, Spec.changesVariable, hasEffect_eq_changesVariable b,
+      hasEffectO_eq_changesVariableO i, hasEffectO_eq_changesVariableO c,
+      hasEffectO_eq_changesVariableO x]
+  | .ret o | .funcDecl o => by
+    simp only [hasEffect, Spec.changesVariable, hasEffectO_eq_changesVariableO o]
+theorem hasEffectL_eq_changesVariableL :
+    (l : List Node) → hasEffectL l = Spec.changesVariableL l
+  | [] => by simp only [hasEffectL, Spec.changesVariableL]
+  | n :: ns => by
+    simp only [hasEffectL, Spec.changesVariableL, hasEffect_eq_changesVariable n,
+      hasEffectL_eq_changesVariableL ns]
+theorem hasEffectO_eq_changesVariableO :
+    (o : Option Node) → hasEffectO o = Spec.changesVariableO o
+  | none => by simp only [hasEffectO, Spec.changesVariableO]
+  | some n => by simp only [hasEffectO, Spec.changesVariableO, hasEffect_eq_changesVariable n]
+end
+
+theorem countedFor_while (c b : Node) : Spec.countedFor (.while_ c b) = !hasEffect c := by
+  simp only [Spec.countedFor, hasEffect_eq_changesVariable]
+
+theorem countedFor_doWhile (c b : Node) : Spec.countedFor (.doWhile c b) = !hasEffect c := by
+  simp only [Spec.countedFor, hasEffect_eq_changesVariable]
 
 /-! ### (C19) `FindLoops` = the generic pre-order traversal -/
 
@@ -200,8 +271,12 @@ theorem loopsN_eq_allLoops : (n : Node) → loopsN n = .ok (Spec.allLoops Spec.c
   | .compound (some es) => by simp only [loopsN, Spec.allLoops, loopsL_eq_allLoopsL es]
   | .ifs _ t f => by
     simp only [loopsN, Spec.allLoops, loopsO_eq_allLoopsO t, loopsO_eq_allLoopsO f]; rfl
-  | .while_ _ b => by simp only [loopsN, Spec.allLoops, loopsN_eq_allLoops b]; rfl
-  | .doWhile _ b => by simp only [loopsN, Spec.allLoops, loopsN_eq_allLoops b]; rfl
+  | .while_ c b => by
+    simp only [loopsN, Spec.allLoops, loopsN_eq_allLoops b, countedFor_while, ok_bind]
+    cases hasEffect c <;> rfl
+  | .doWhile c b => by
+    simp only [loopsN, Spec.allLoops, loopsN_eq_allLoops b, countedFor_doWhile, ok_bind]
+    cases hasEffect c <;> rfl
   | .for_ init cond next b => by
     simp only [loopsN, Spec.allLoops, loopsN_eq_allLoops b, loopCompat_for, countedFor_for, ok_bind]
     cases (lcP init cond next b).1 <;> rfl
